@@ -21,6 +21,9 @@ def sh(cmd, cwd=None, env=None, timeout=3600):
 
 
 ROUND = 1
+# seeds whose change lives in code that another property's check owns: those checks are run as well
+ALSO = {"C05-2": ["C10"], "C05-3": ["C03"], "C05-4": ["C02"], "C10-4": ["C12"], "C11-3": ["C02"], "C11-4": ["C12"],
+        "C01-3": ["C02"], "C16-2": ["C02"]}
 
 
 def source_dir(pid, k):
@@ -95,8 +98,8 @@ def main():
     if "--also" in args:
         i = args.index("--also"); also = args[i + 1].split(","); del args[i:i + 2]
     for pid in args:
-        for k in (1, 2):
-            r = evaluate(pid, k, tier, also)
+        for k in ((1, 2) if ROUND > 1 else (1, 2, 3, 4)):
+            r = evaluate(pid, k, tier, sorted(set(also + ALSO.get("%s-%d" % (pid, seed_index(k)), []))))
             if r is None:
                 continue
             print(json.dumps(r), flush=True)
